@@ -23,7 +23,7 @@ func flagViaBuilders(f ldmodel.FeatureFlag) ldmodel.FeatureFlag {
 	// a builder is often kept and built more than once: an intermediate Build() must not freeze anything
 	_ = b.Build()
 	for _, r := range f.Rules {
-		rb := ldbuilders.NewRuleBuilder().ID(r.ID).TrackEvents(r.TrackEvents).VariationOrRollout(r.VariationOrRollout).Clauses(plainClauses(r.Clauses)...)
+		rb := ldbuilders.NewRuleBuilder().ID(r.ID).TrackEvents(r.TrackEvents).VariationOrRollout(r.VariationOrRollout).Clauses(reusedClauses(r.Clauses)...)
 		b.AddRule(rb)
 	}
 	b.Fallthrough(f.Fallthrough)
@@ -60,7 +60,7 @@ func segmentViaBuilders(s ldmodel.Segment) ldmodel.Segment {
 		b.Generation(s.Generation.IntValue())
 	}
 	for _, r := range s.Rules {
-		rb := ldbuilders.NewSegmentRuleBuilder().ID(r.ID).Clauses(plainClauses(r.Clauses)...).BucketByRef(r.BucketBy).RolloutContextKind(r.RolloutContextKind)
+		rb := ldbuilders.NewSegmentRuleBuilder().ID(r.ID).Clauses(reusedClauses(r.Clauses)...).BucketByRef(r.BucketBy).RolloutContextKind(r.RolloutContextKind)
 		if r.Weight.IsDefined() {
 			rb.Weight(r.Weight.IntValue())
 		}
@@ -68,5 +68,38 @@ func segmentViaBuilders(s ldmodel.Segment) ldmodel.Segment {
 	}
 	out := b.Build()
 	out.Deleted = s.Deleted
+	return out
+}
+
+// reusedClauses: the clauses handed to a builder are often taken from an already built flag and edited (a new cut-off
+// date, another pattern, other keys) rather than written from scratch. Each clause here first goes through
+// preprocessing with decoy values of the same length, then gets its real values: Build() must precompute from the values
+// the clause has NOW.
+func reusedClauses(in []ldmodel.Clause) []ldmodel.Clause {
+	if in == nil {
+		return nil
+	}
+	decoys := plainClauses(in)
+	for i := range decoys {
+		for j, v := range decoys[i].Values {
+			switch v.Type() {
+			case ldvalue.StringType:
+				decoys[i].Values[j] = ldvalue.String("1999-12-31T00:00:00Z")
+			case ldvalue.NumberType:
+				decoys[i].Values[j] = ldvalue.Int(12345)
+			case ldvalue.BoolType:
+				decoys[i].Values[j] = ldvalue.Bool(!v.BoolValue())
+			}
+		}
+	}
+	tmp := ldmodel.FeatureFlag{Rules: []ldmodel.FlagRule{{Clauses: decoys}}}
+	ldmodel.PreprocessFlag(&tmp)
+	out := tmp.Rules[0].Clauses
+	for i := range out {
+		out[i].Values = append([]ldvalue.Value(nil), in[i].Values...)
+		if in[i].Values == nil {
+			out[i].Values = nil
+		}
+	}
 	return out
 }
